@@ -23,6 +23,7 @@ import (
 
 	"verif/internal/ev"
 	"verif/internal/goat"
+	"verif/internal/rx"
 )
 
 func TestMain(m *testing.M) { ev.Main(m, "C05") }
@@ -845,9 +846,9 @@ func genExpr(rt *rapid.T, nOps int, depth int, ni, nb *int) *Expr {
 	x := &Expr{}
 	for k := 0; k <= nOps; k++ {
 		if k > 0 {
-			x.Ops = append(x.Ops, rapid.SampledFrom(binOps).Draw(rt, "op"))
+			x.Ops = append(x.Ops, rx.Pick(rt, "op", binOps...))
 		}
-		kind := rapid.IntRange(0, 9).Draw(rt, "atom")
+		kind := rx.Uniform(rt, 10, "atom")
 		switch {
 		case kind == 0 && depth < 2 && nOps >= 2:
 			g := genExpr(rt, rapid.IntRange(1, 2).Draw(rt, "gops"), depth+1, ni, nb)
